@@ -23,12 +23,14 @@ TREE_SEED = 0   # an explicit seed, and a falsy one: `seed=0` must seed the tree
 CONFIGS = []
 for kind in ("pfi", "sage", "batch", "interval"):
     for storage in ("geom", "uniform", "default", "tree"):
-        for imputer in ("joint", "product", "tree", "default"):
-            if (storage == "tree") != (imputer == "tree"):
+        for imputer in ("joint", "product", "tree", "tree0", "default"):
+            if (storage == "tree") != (imputer in ("tree", "tree0")):
                 continue
             if kind in ("batch", "interval") and storage in ("tree", "geom", "uniform"):
                 continue
             CONFIGS.append((kind, storage, imputer))
+CONFIGS.append(("pfi", "geom", "river-labels"))
+CONFIGS.append(("sage", "geom", "river-labels"))
 
 
 def model(x):
@@ -55,6 +57,22 @@ def stream(n, sd):
     return out
 
 
+def label_model():
+    """a river-style classifier returning STRING labels, behind the library's RiverWrapper (one-hot over the labels seen so far)"""
+    from ixai.utils.wrappers import RiverWrapper
+
+    class Clf:
+        def predict_one(self, x):
+            return "pos" if x["a"] > 0 else ("neg" if x["c"] < 2 else "mid")
+    return RiverWrapper(Clf().predict_one)
+
+
+def brier(y, p):
+    """label-averaged squared error: sensitive to additional zero-probability labels"""
+    want = "pos" if y > 0 else "neg"
+    return sum((v - (1.0 if k == want else 0.0)) ** 2 for k, v in p.items()) / max(1, len(p))
+
+
 def build(kind, storage, imputer):
     from ixai.explainer import IncrementalPFI, IncrementalSage
     from ixai.explainer.sage import BatchSage, IntervalSage
@@ -70,10 +88,16 @@ def build(kind, storage, imputer):
         st = TreeStorage(cat_feature_names=["b"], num_feature_names=["a", "c"], max_depth=3, leaf_reservoir_length=3,
                          grace_period=5, seed=TREE_SEED)
     imp = None
+    if imputer == "river-labels":
+        m = label_model()
+        cls = IncrementalPFI if kind == "pfi" else IncrementalSage
+        return cls(m, brier, names, storage=st, imputer=MarginalImputer(m, "joint", st), n_inner_samples=2, smoothing_alpha=0.1)
     if imputer in ("joint", "product") and st is not None:
         imp = MarginalImputer(model, imputer, st)
     elif imputer == "tree":
         imp = TreeImputer(model, st, use_storage=True)
+    elif imputer == "tree0":
+        imp = TreeImputer(model, st, use_storage=False)
     if kind == "pfi":
         return IncrementalPFI(model, loss, names, storage=st, imputer=imp, n_inner_samples=2, smoothing_alpha=0.1)
     if kind == "sage":
@@ -101,6 +125,8 @@ def run_once(cfg, sa, sb, n=14, decoys=False, record=False):
     import random
     import numpy as np
     kind, storage, imputer = cfg
+    if storage == "tree":
+        n = 420      # long enough for the per-feature trees to split and, after the drift, to grow alternate sub-trees
     with warnings.catch_warnings():
         warnings.simplefilter("ignore")
         if decoys:
@@ -116,6 +142,10 @@ def run_once(cfg, sa, sb, n=14, decoys=False, record=False):
             for x, y in stream(5, 99):
                 dex.explain_one(x, y)
             MultiValueTracker(WelfordTracker()).update({"q": 1.0})
+            from ixai.utils.wrappers import RiverWrapper
+            dw = RiverWrapper(lambda x: "label-only-the-decoy-emits" if x["a"] > 0 else "another-decoy-label")
+            for x, _ in stream(6, 98):
+                dw(x)
             junk = [object() for _ in range(1000)]  # shifts object identities
         random.seed(sa)
         np.random.seed(sb)
